@@ -202,7 +202,9 @@ class ZopeInterfaceModuleVisitor(extensions.ModuleVisitorExt):
         if not isinstance(expr, ast.Call):
             return
         attr: Optional[model.Documentable] = self.visitor.builder.current.contents.get(target)
-        if attr is None:
+        if not isinstance(attr, model.Attribute):
+            # No attribute of that name was created: the name is unknown, or it is 
+            # a method or a nested class of this class, which stays what it is.
             return
         funcName = astbuilder.node2fullname(expr.func, self.visitor.builder.current)
         if funcName is None:
